@@ -49,6 +49,49 @@ func memScenarios(depth int) []*engine.Scenario {
 		sc.Oracle.Family = nil
 		scs = append(scs, sc)
 	}
+	// relation component with payload: stale payload must never resurface, tables reset / recycled
+	{
+		relAlpha := func(m *model.Model) []model.Op {
+			var ops []model.Op
+			tg := targets(m, 2)
+			if m.NumAlive() < 6 {
+				ops = append(ops, model.Op{K: model.OpNew, Path: model.PathMapN, Cs: ct.Of(ct.L)})
+				for _, t := range tg {
+					ops = append(ops,
+						model.Op{K: model.OpNew, Path: model.PathMapN, Cs: ct.Of(ct.R2), T: rel(ct.R2, t)},
+						model.Op{K: model.OpNew, Path: model.PathMapN, Cs: ct.Of(ct.R2), T: rel(ct.R2, t), Init: model.InitNil},
+						model.Op{K: model.OpNewBatch, Path: model.PathMapN, Cs: ct.Of(ct.R2, ct.S), Ord: []ct.Comp{ct.R2, ct.S}, N: 2, T: rel(ct.R2, t), Init: model.InitFn, Fn: true},
+						model.Op{K: model.OpNewBatch, Path: model.PathMapN, Cs: ct.Of(ct.R2, ct.S), Ord: []ct.Comp{ct.R2, ct.S}, N: 2, T: rel(ct.R2, t), Init: model.InitNil},
+					)
+				}
+			}
+			for _, e := range pick2(with(m, ct.Of(ct.R2))) {
+				ops = append(ops, model.Op{K: model.OpRemoveEntity, E: e})
+				for _, t := range tg {
+					if m.Ents[e].Tgt[ct.R2] != t && t != e {
+						ops = append(ops, model.Op{K: model.OpSetRel, Path: model.PathMapN, E: e, T: rel(ct.R2, t)})
+					}
+				}
+			}
+			for _, t := range tg[1:] {
+				ops = append(ops, model.Op{K: model.OpRemoveEntity, E: t})
+				ops = append(ops, model.Op{K: model.OpSetRelBatch, Path: model.PathMapN, F: 0, T: rel(ct.R2, t)})
+			}
+			ops = append(ops,
+				model.Op{K: model.OpRemoveEntities, F: 0, Fn: true},
+				model.Op{K: model.OpRemoveBatch, Path: model.PathMapN, F: 1, Rm: ct.Of(ct.S)},
+				model.Op{K: model.OpReset}, model.Op{K: model.OpShrink},
+			)
+			return validOnly(m, ops)
+		}
+		scs = append(scs, &engine.Scenario{
+			Name: "C11-relation-payload", Cfgs: cfgs([]int{1}, []int{0}, one, []ct.Comp{ct.L, ct.R2, ct.S}), Slots: 1,
+			Filters:  []model.FilterSpec{{Params: []ct.Comp{ct.R2}}, {Params: []ct.Comp{ct.R2, ct.S}}},
+			Oracle:   drv.Oracle{World: true, Lock: true},
+			Preludes: [][]model.Op{{{K: model.OpNew, Path: model.PathMapN, Cs: ct.Of(ct.L)}, {K: model.OpNew, Path: model.PathMapN, Cs: ct.Of(ct.L)}}},
+			Alphabet: relAlpha, Depth: depth,
+		})
+	}
 	// big tables
 	filters := []model.FilterSpec{{Params: []ct.Comp{ct.L}}, {Params: []ct.Comp{ct.S}}, {}}
 	bigAlpha := func(m *model.Model) []model.Op {
